@@ -39,6 +39,9 @@ var c14KindOps = []string{"==", "!=", "<", "<=", ">", ">=", "+", "-", "*", "/", 
 type kindCase struct {
 	L, R kindOperand
 	Op   string
+	// Whole, when set, is a complete failing application (no operator table entry)
+	Whole func() *Expr
+	Name  string
 }
 
 var c14KindCases = func() []kindCase {
@@ -46,10 +49,31 @@ var c14KindCases = func() []kindCase {
 	for _, l := range c14Lefts {
 		for _, r := range c14Rights {
 			for _, op := range c14KindOps {
-				out = append(out, kindCase{l, r, op})
+				out = append(out, kindCase{L: l, R: r, Op: op})
 			}
 		}
 	}
+	// appended later (indices above stay what they were): applications that fail for other reasons
+	// than the operand families - a pattern that does not compile, a selector of the wrong kind
+	whole := func(name string, mk func() *Expr) { out = append(out, kindCase{Whole: mk, Name: name}) }
+	s1 := func() *Expr { return VarE(P("F.S1"), TStr, reflect.String) }
+	for _, pat := range []string{"(", "[a-", "a{2,1}", "(?P<n", "\\", "*a"} {
+		pat := pat
+		whole("MatchString with the invalid pattern "+pat, func() *Expr { return CallE(s1(), "MatchString", TBool, reflect.Bool, LitS(pat)) })
+		whole("MatchString on a literal with the invalid pattern "+pat, func() *Expr { return CallE(LitS("abc"), "MatchString", TBool, reflect.Bool, LitS(pat)) })
+	}
+	whole("string-keyed map read with the number of a key's only character", func() *Expr {
+		return Bin("==", TBool, VarE(P("F.MP", 97, ".X"), TInt, reflect.Int64), VarE(P("F.MP", 97, ".X"), TInt, reflect.Int64))
+	})
+	whole("string-keyed map of numbers read with an integer selector", func() *Expr {
+		return Bin(">=", TBool, VarE(P("F.MS", 107), TStr, reflect.String), LitS(""))
+	})
+	whole("integer-keyed map read with a string selector", func() *Expr {
+		return Bin("==", TBool, VarE(P("F.MI", "1"), TInt, reflect.Int64), VarE(P("F.MI", "1"), TInt, reflect.Int64))
+	})
+	whole("slice read with a string selector", func() *Expr {
+		return Bin("==", TBool, VarE(P("F.Arr", "0"), TInt, reflect.Int64), VarE(P("F.Arr", "0"), TInt, reflect.Int64))
+	})
 	return out
 }()
 
@@ -57,6 +81,9 @@ var c14KindCases = func() []kindCase {
 // the reference does not call this application a failure on st (well-typed, or unspecified).
 func c14KindProgram(k kindCase, st State, compound bool) (*Program, bool) {
 	app := func() *Expr {
+		if k.Whole != nil {
+			return k.Whole()
+		}
 		ty := TBool
 		switch k.Op {
 		case "+", "-", "*", "/", "%", "&", "|":
@@ -90,6 +117,9 @@ func c14KindProgram(k kindCase, st State, compound bool) (*Program, bool) {
 	failing := Assign(P("F.Any"), "=", app())
 	if compound {
 		// ... or as a compound assignment  L op= R
+		if k.Whole != nil {
+			return nil, false
+		}
 		l := k.L.Mk()
 		if l.Op != "var" || (k.Op != "+" && k.Op != "-" && k.Op != "*" && k.Op != "/") {
 			return nil, false
@@ -110,7 +140,7 @@ func runC14KindCase(c *Ctx, t int, cr *CaseResult) *CaseResult {
 	for _, compound := range []bool{false, true} {
 		c14KindRun(c, k, init, compound, cr)
 	}
-	cr.set("kind_mismatch_applications", fmt.Sprintf("%s %s %s", k.L.Name, k.Op, k.R.Name))
+	cr.set("kind_mismatch_applications", k.describe())
 	return cr
 }
 
@@ -144,14 +174,21 @@ func c14KindRun(c *Ctx, k kindCase, init State, compound bool, cr *CaseResult) {
 		vs = append(vs, MonFiresOnlyWhenTrue(a)...)
 		if len(vs) > 0 {
 			d := caseDetail(text, "one", init, res, vs)
-			d["application"] = fmt.Sprintf("%s %s %s", k.L.Name, k.Op, k.R.Name)
-			cr.violate(fmt.Sprintf("%s %s %s (ReturnErrOnFailedRuleEvaluation=%v): %s", k.L.Name, k.Op, k.R.Name, retErr, joinViol(vs[:min(3, len(vs))])), d)
+			d["application"] = k.describe()
+			cr.violate(fmt.Sprintf("%s (ReturnErrOnFailedRuleEvaluation=%v): %s", k.describe(), retErr, joinViol(vs[:min(3, len(vs))])), d)
 			continue
 		}
 		cr.inc("kind_mismatch_runs")
 		if compound {
 			cr.inc("kind_mismatch_compound_assignment_runs")
 		}
-		cr.NonTrivial = append(cr.NonTrivial, fmt.Sprintf("kind|%s|%s|%s|%v|%v", k.L.Name, k.Op, k.R.Name, retErr, compound))
+		cr.NonTrivial = append(cr.NonTrivial, fmt.Sprintf("kind|%s|%v|%v", k.describe(), retErr, compound))
 	}
+}
+
+func (k kindCase) describe() string {
+	if k.Whole != nil {
+		return k.Name
+	}
+	return fmt.Sprintf("%s %s %s", k.L.Name, k.Op, k.R.Name)
 }
